@@ -26,7 +26,9 @@ func craftTime(n any) string {
 	case int:
 		k = v
 	}
-	return craftEpoch.Add(time.Duration(k) * time.Second).Format(time.RFC3339Nano)
+	// a quarter of a second per tick: RFC3339Nano drops trailing zeros, so crafted logs mix
+	// "…:01Z", "…:01.25Z", "…:01.5Z" - the same instant ordering, different string ordering
+	return craftEpoch.Add(time.Duration(k) * 250 * time.Millisecond).Format(time.RFC3339Nano)
 }
 
 // craftID gives model id "i<k>" a fixed, valid real id.
